@@ -20,3 +20,19 @@ claim("C06", "CFG dominance (gate), field ownership, comparator analysis, siblin
 claim("C07", "must-pass-through / branch-always path rules, loop-exit analysis, parameter-threading agreement across call sites",
       "Every release path requests and propagates a full re-sync; the free-address search has no early exit and uses the same keys as the final Assign; decided on all paths. Not a completeness proof against an admissibility oracle.",
       NOTE, "DESIGN.md section 5, C07")
+
+claim("C04", "comparator analysis (SORT-IDX, SORT-KEY), map-order must-pass-through, CFG dominance of eligibility filters, known-finding gate",
+      "The layer-2 election is a deterministic key-based argmin over candidates that all passed the eligibility filters; decided on all paths. ELECTION-SCOPE is a recorded known finding (D9). Not a proof that speakers share a view.",
+      NOTE, "DESIGN.md section 5, C04")
+claim("C05", "CFG path rules, loop-skip analysis, field-coverage (sibling) tables, ownership of activeAds",
+      "Per-(address, advertisement) route construction, per-peer filtering, republish-after-change, session selection, Peer->SessionParameters coverage, wholesale replacement of activeAds; decided on all paths. Not a proof of route-set equality as values.",
+      NOTE, "DESIGN.md section 5, C05")
+claim("C09", "must-pass-through on every exit, branch-always, ownership, for-all loops, shape analysis of the set-comparison helper",
+      "Every exit withdraws or evaluates, refusal and errors withdraw/retry in the right order, per-protocol state is rebuilt not accumulated, configuration and node changes request a re-sync; decided on all paths. Not a proof of fresh-speaker equivalence over histories.",
+      NOTE, "DESIGN.md section 5, C09")
+claim("C10", "CFG dominance of required guards, refusal-reason enumeration, sticky-false path rule inside the address loop",
+      "The empty (announce) answer is dominated by all five required predicates on the local node, no other refusal exists, an unready entry always vetoes its address; decided on all paths.",
+      NOTE, "DESIGN.md section 5, C10")
+claim("C12", "comparator analysis (key-based argmin premise of rendezvous hashing)",
+      "Structural premise of rendezvous hashing decided (same key expression at i and j, key inputs = node name and first address only, winner = element 0 of the sorted list); minimal failover follows mathematically. ELECTION-SCOPE is a recorded known finding (D9).",
+      NOTE, "DESIGN.md section 5, C12")
